@@ -169,6 +169,15 @@ class Interp:
             return [(("unk", "call %s" % H.last(d)),)]
         if k == "MethodCall":
             nm = n["name"]
+            d_ = n.get("def") or ""
+            hm_ = getattr(self.crate, "hir", {}).get(d_)
+            if d_ in self.printers and hm_ is not None and n.get("args") and len(hm_.get("inputs", [])) >= 2 and AST_ARG.search(hm_["inputs"][1]) and "String" not in (hm_["inputs"][1]):
+                # a printer written as a method (`self.expr(child)`): the receiver carries state, the first argument is the node
+                p = self.path_of(n["args"][0], env)
+                if p is not None:
+                    if d_ in self.key_fns:
+                        return [(("ident", p, "record-key"),)]
+                    return [(("child", p, d_),)]
             if nm in PASS_THROUGH:
                 return self.seqs(n["recv"], env)
             if nm == "join":
